@@ -178,6 +178,15 @@ def bool_skeleton(e: ast.expr, atoms: List[ast.expr]):
     if isinstance(e, ast.IfExp):
         c_, a_, b_ = bool_skeleton(e.test, atoms), bool_skeleton(e.body, atoms), bool_skeleton(e.orelse, atoms)
         return lambda val, c_=c_, a_=a_, b_=b_: a_(val) if c_(val) else b_(val)
+    # equality / inequality of two truth values: (a < b) == (m is None)
+    def _boolish(x):
+        return isinstance(x, (ast.Compare, ast.BoolOp)) or (isinstance(x, ast.UnaryOp) and isinstance(x.op, ast.Not)) or (isinstance(x, ast.Constant) and isinstance(x.value, bool)) \
+            or (isinstance(x, ast.IfExp) and _boolish(x.body) and _boolish(x.orelse))
+
+    if isinstance(e, ast.Compare) and len(e.ops) == 1 and isinstance(e.ops[0], (ast.Eq, ast.NotEq, ast.Is, ast.IsNot)) and _boolish(e.left) and _boolish(e.comparators[0]):
+        l_, r_ = bool_skeleton(e.left, atoms), bool_skeleton(e.comparators[0], atoms)
+        same = isinstance(e.ops[0], (ast.Eq, ast.Is))
+        return lambda val, l_=l_, r_=r_, same=same: (l_(val) == r_(val)) == same
     key = "".join(ast.unparse(e).split())
     for i, a in enumerate(atoms):
         if "".join(ast.unparse(a).split()) == key:
@@ -270,6 +279,12 @@ def _inline_bool_names(fn: ast.FunctionDef, e: ast.expr, at: Optional[Node], dep
             return ast.UnaryOp(op=ast.Not(), operand=inline(x.operand))
         if isinstance(x, ast.IfExp):
             return ast.IfExp(test=inline(x.test), body=inline(x.body), orelse=inline(x.orelse))
+        if isinstance(x, ast.Compare) and len(x.ops) == 1 and isinstance(x.ops[0], (ast.Eq, ast.NotEq, ast.Is, ast.IsNot)) and isinstance(x.left, ast.Name) and isinstance(x.comparators[0], ast.Name):
+            # equality of two local truth values
+            l_, r_ = inline(x.left), inline(x.comparators[0])
+            if not isinstance(l_, ast.Name) and not isinstance(r_, ast.Name):
+                return ast.Compare(left=l_, ops=x.ops, comparators=[r_])
+            return x
         if isinstance(x, ast.Name):
             ds = flow.reaching(at, x.id)
             if len(ds) == 1 and ds[0].kind == "assign" and not ds[0].path and isinstance(ds[0].value, (ast.BoolOp, ast.Compare, ast.UnaryOp, ast.IfExp)):
